@@ -62,7 +62,7 @@ def readAllS (w : World) : SSt → List Src → SSt × Except Exc Val
 /-- the method's own computation: its sources in order; an empty file of a zombie is
     reported as ZombieProcess by the methods that check for it -/
 def bodyS (m : Meth) (ss : SSt) (w : World) : SSt × Except Exc Val :=
-  match readAllS w ss m.srcs with
+  match readAllS w ss (m.eff w) with
   | (ss1, .ok cs) =>
     if m.zprobe && cs.head? == some Content.empty && w.st == PState.zombie
     then (ss1, .error .zombieProcess) else (ss1, .ok cs)
@@ -133,6 +133,24 @@ def asDictS (meths : List Meth) (valid : List String) (a : AsDictArg) (ss : SSt)
       let ls := if explicit then a.attrs else a.allOrder      -- None or empty: every valid name
       let (ss2, out) := loopS meths a.env explicit w (enterS ss) ls []
       (exitS ss2, out)
+
+/- ------------------------------------------------------------------ what the DOCUMENTATION says (no code involved) -/
+
+/-- docs/index.rst, `Process.oneshot()`, column "Linux" of the table "methods which can take advantage of the speedup":
+    the rows between two horizontal empty rows "can be efficiently grouped together internally", i.e. share one source.
+    First group ≙ /proc/<pid>/stat, second ≙ status, third ≙ smaps (the three records the property names). -/
+def docGroups : List (Src × List String) :=
+  [(.stat, ["cpu_num", "cpu_percent", "cpu_times", "create_time", "name", "ppid", "status", "terminal"]),
+   (.status, ["gids", "num_ctx_switches", "num_threads", "uids", "username"]),
+   (.smaps, ["memory_full_info", "memory_maps"])]
+
+/-- the public attributes of `Process` that are NOT "public (read only) attributes" in the sense of as_dict()'s
+    documentation: they act on the process (send_signal … kill), block (wait), need or set arguments (rlimit), return
+    Process objects / a liveness verdict (parent, parents, children, is_running), are utilities (as_dict, oneshot) or a
+    deprecated alias (connections). as_dict() must never call one of them. -/
+def notGetters : List String :=
+  ["send_signal", "suspend", "resume", "terminate", "kill", "wait", "is_running", "as_dict", "parent", "parents",
+   "children", "rlimit", "connections", "oneshot"]
 
 /- ------------------------------------------------------------------ histories -/
 
